@@ -413,7 +413,7 @@ Theorem rerun_accepted_chain_running d t skip d' b :
     (forall w, In w (chain_wfs l) -> wstate d' w = Some RUNNING /\ wacc d' w = Some false) /\
     (forall pt, In pt (chain_tasks l) -> pt <> t -> tstate d' pt = Some RUNNING) /\
     (skip = true -> tstate d' t = Some SKIPPED) /\
-    (skip = false -> (t_state tr = ERROR \/ t_state tr = CANCELLED) -> ~ In t (chain_tasks l) -> tstate d' t = Some RUNNING) /\
+    (skip = false -> t_state tr = ERROR -> ~ In t (chain_tasks l) -> tstate d' t = Some RUNNING) /\
     same_ptrs d d'.
 Proof.
   intros H tr Htr Hnp. destruct (rerun_workflow_ok _ _ _ _ _ H) as [(tr' & Htr' & Hp & _)|(A & _)].
@@ -439,8 +439,7 @@ Proof.
     + intros Hs Hst Hnin; subst skip. unfold tstate. rewrite Ht, Nat.eqb_refl.
       rewrite (Hfr t Hnin), Htr. simpl.
       destruct (mark_processed_row_keeps (t_wf tr) tr) as (E & _).
-      unfold trow_restart. rewrite E.
-      destruct Hst as [Hst|Hst]; rewrite Hst; reflexivity.
+      unfold trow_restart. rewrite E, Hst. reflexivity.
     + destruct HP as (HPw & _). intro w. unfold wptask, wrow_of in *. rewrite Hw. apply HPw.
     + destruct HP as (_ & HPt). intro t'. unfold twf. rewrite Ht.
       specialize (HPt t'). unfold twf in HPt. rewrite <- HPt.
@@ -448,7 +447,7 @@ Proof.
         destruct (mark_processed_row_keeps (t_wf tr) r) as (_ & E & _).
       * destruct skip; simpl; [now rewrite E|].
         unfold trow_restart. destruct (state_eqb _ WAITING); [simpl; now rewrite E|].
-        destruct (_ || _); simpl; now rewrite E.
+        destruct (state_eqb _ ERROR); simpl; now rewrite E.
       * now rewrite E.
 Qed.
 
@@ -575,7 +574,7 @@ Proof.
         simpl in *. inversion Hs as [Hs0]. inversion Er1; subst r1.
         destruct (mark_processed_row_keeps (t_wf tr) r0) as (E & _).
         unfold trow_restart. rewrite E, Hs0. simpl. rewrite E, Hs0. discriminate.
-    - specialize (Hrun eq_refl (or_introl Herr) Hnin). unfold tstate in Hrun. rewrite Er1 in Hrun. simpl in Hrun.
+    - specialize (Hrun eq_refl Herr Hnin). unfold tstate in Hrun. rewrite Er1 in Hrun. simpl in Hrun.
       inversion Hrun as [E]. rewrite E. discriminate. }
   destruct (start_rerun_runs d1 t reset items r1 Er1 Hr1) as (d2 & Hs & Hwf & Hoth & (r' & Er' & Hst & _)).
   exists l, d2. repeat split; auto.
